@@ -15,6 +15,9 @@
    next to the 0/360 seam (wrap point of the real Azimuth) or the +-180 seam (same function,
    wrap point moved); est_x, est_p and the innovation must equal those of the canonical
    stack of the behaviour; angular innovations must lie in (-pi, pi].
+   Behaviours with Continue are SEQUENCES of updates of one filter instance (group actions or a
+   relayout of equal total dimension in between, range innovations of several km, seam azimuths):
+   the instance's result must equal that of a fresh instance fed the same prior and stack.
 3. Spec mutants: the two as-coded deviations of Angles.tla must be refuted by TLC.
 """
 from __future__ import annotations
@@ -265,39 +268,64 @@ def _scaled_err(u: dict, b: dict, perm_idx) -> dict:
     return {"est_x": float((ex / scale_x).max()), "est_p": float(ep.max()), "innovation": float(ei.max())}
 
 
+def _own_checks(out, u, st, rp, tuning):
+    """Checks on one update result that need no reference: range, flags, sign of the azimuth innovation."""
+    ang = u["innovation"][u["is_angular"]]
+    if not bool(((ang > -A.PI) & (ang <= A.PI)).all()):
+        out["violations"].append(("ukf-innovation-out-of-range", f"angular innovation outside (-pi, pi]: {ang.tolist()}", rp))
+    want = np.array([c in ("az", "el") for _, _, c in u["comps"]])
+    if not np.array_equal(want, u["is_angular"]):
+        out["violations"].append(("ukf-angular-flags", "is_angular does not flag exactly the azimuth/elevation components", rp))
+    for n, (oid, c, comp) in enumerate(u["comps"]):
+        if comp == "az":
+            o = next(x for x in st if x["id"] == oid)
+            v = float(u["innovation"][n])
+            if o["u"] != 0 and not (0 < v * o["u"] < A.TAU):
+                out["violations"].append(("ukf-innovation-sign", f"azimuth innovation {v!r} of sensor {oid}: the measured value is "
+                                          f"{'above' if o['u'] > 0 else 'below'} the predicted one by less than a tick", rp))
+
+
 def replay_group(task):
-    """One base (canonical stack) and all states of its behaviours: returns findings."""
-    tuning, base_stack, stacks, count_base = task
+    """One base (canonical stack) and all states of its behaviours: returns findings.
+    An item is (stack, hist): hist = stacks the SAME filter instance has updated with before."""
+    tuning, base_stack, items, count_base = task
     sc = _scene(tuning)
-    out = {"violations": [], "cases": [], "worst": {}, "n": 0, "seam_straddled": 0, "w0": sc.w0, "cond": sc.weight_cond}
+    out = {"violations": [], "cases": [], "worst": {}, "n": 0, "n_seq": 0, "w0": sc.w0, "cond": sc.weight_cond}
     base = sc.update(base_stack)
     floor = 1.0e5 * EPS * sc.weight_cond
     order = {(i, c): n for n, (i, c, _) in enumerate(base["comps"])}
-    ang_b = base["innovation"][base["is_angular"]]
-    # sigma points of the canonical stack: does the predicted azimuth straddle a seam?
-    for st in ([base_stack] if count_base else []) + list(stacks):
-        u = base if st is base_stack else sc.update(st)
-        out["n"] += 1
+    fresh_cache: dict = {}
+
+    def fresh(st):
+        k = json.dumps(st, sort_keys=True)
+        if k not in fresh_cache:
+            fresh_cache[k] = base if st == base_stack else sc.update(st)
+            out["n"] += 1
+        return fresh_cache[k]
+
+    for st, hist in ([(base_stack, [])] if count_base else []) + [tuple(x) for x in items]:
+        u = fresh(st)
         cls = _classes(st)
-        key = json.dumps([tuning, st], sort_keys=True)
-        out["cases"].append((key, bool(cls)))
-        rp = {"tuning": tuning, "stack": st, "classes": cls}
-        ang = u["innovation"][u["is_angular"]]
-        if not bool(((ang > -A.PI) & (ang <= A.PI)).all()):
-            out["violations"].append(("ukf-innovation-out-of-range", f"angular innovation outside (-pi, pi]: {ang.tolist()}", rp))
-        # flags: exactly the az/el components are angular
-        want = np.array([c in ("az", "el") for _, _, c in u["comps"]])
-        if not np.array_equal(want, u["is_angular"]):
-            out["violations"].append(("ukf-angular-flags", "is_angular does not flag exactly the azimuth/elevation components", rp))
-        # expected sign of the azimuth innovation from the spec's sub-tick class u
-        for n, (oid, c, comp) in enumerate(u["comps"]):
-            if comp == "az":
-                o = next(x for x in st if x["id"] == oid)
-                v = float(u["innovation"][n])
-                if o["u"] != 0 and not (0 < v * o["u"] < A.TAU):
-                    out["violations"].append(("ukf-innovation-sign", f"azimuth innovation {v!r} of sensor {oid}: the measured value is "
-                                              f"{'above' if o['u'] > 0 else 'below'} the predicted one by less than a tick", rp))
-        if st is base_stack:
+        rp = {"tuning": tuning, "stack": st, "hist": hist, "classes": cls}
+        if hist:
+            # ---- the same instance after earlier updates must equal a fresh instance (same prior, same stack)
+            v = sc.update(st, hist)
+            out["n"] += 1 + len(hist)
+            out["n_seq"] += 1
+            out["cases"].append((json.dumps([tuning, hist, st], sort_keys=True), True))
+            _own_checks(out, v, st, rp, tuning)
+            err = _scaled_err(v, u, list(range(len(u["comps"]))))
+            for q, e in err.items():
+                k = ("history", q)
+                out["worst"][k] = max(out["worst"].get(k, 0.0), e)
+                if not e <= 1e-12:
+                    out["violations"].append((f"ukf-{q}-depends-on-earlier-update",
+                                              f"{q} after update(s) with other stacks on the same filter instance differs from a fresh "
+                                              f"instance fed the same prior and stack by {e:.3e} (scaled)", dict(rp, error=e)))
+            continue
+        out["cases"].append((json.dumps([tuning, st], sort_keys=True), bool(cls)))
+        _own_checks(out, u, st, rp, tuning)
+        if st == base_stack:
             continue
         idx = [order[(i, c)] for i, c, _ in u["comps"]]
         err = _scaled_err(u, base, idx)
@@ -327,6 +355,7 @@ def _spec_ok(res, what):
 
 
 ACTIONS = {
+    "seq": ("ObsGroup", ["Continue", "Relayout", "Permute", "Update"]),
     "res": ("Angles", ["PoseA", "PoseB", "AddTurnsA", "AddTurnsB", "MoveSeamA", "MoveSeamB", "Reduce", "Difference", "Recentre"]),
     "mean": ("Angles", ["PoseCentre", "PoseFirst", "AppendMember", "Freeze", "Accumulate", "Locate", "MAddTurns", "MMoveSeam",
                         "MSwap"]),
@@ -366,7 +395,8 @@ def _run(ctx: Ctx, pool):
                 "phases; non-trivial = a != b.  mean: every posed weighted list x centre x group action, non-trivial = more "
                 "than one member.  filter: every 'updated' state of ObsGroup.tla (tuning x kinds x seam placement x "
                 "sub-tick pattern x group word incl. all 24 orders), non-trivial = representation or order differs from "
-                "the canonical stack; distinct by (tuning, stack)")
+                "the canonical stack; distinct by (tuning, stack); sequences: one filter instance updated with hist then stack, "
+                "compared with a fresh instance (distinct by (tuning, hist, stack))")
     ctx.assumptions = [
         "one tick = 15 degrees; t ticks -> (t/24) * TWOPI radians; exact value of a helper = exact rational wrap of the "
         "ACTUAL float input with the code's float period; results compared circularly at 1e-9 and against the documented range",
@@ -378,6 +408,8 @@ def _run(ctx: Ctx, pool):
         "filter: scaled errors (est_x per position/velocity norm, est_p per sqrt(Pii Pjj), innovation per max(|value|, sigma)); "
         "tolerance 1e-9 (1e-7 when the order changes) + 1e5 * eps * sum|W| / |sum W| of the sigma-point weights "
         "(default tuning: centre weight -2e6, floor 8.9e-5; alpha = 1: floor 7e-11)",
+        "a filter instance that has already processed other stacks must reproduce a fresh instance's result for the same "
+        "(prior, stack) to 1e-12 scaled (the computations are identical); successive update() calls share the prior of one predict()",
         "innovations of exactly half a turn are not posed at filter level (the posterior is discontinuous there)",
         "measured values are synthetic (predicted +- fixed offsets, or exactly the tick value); geometry from the real "
         "Azimuth/Elevation/Range/RangeRate functions; AzimuthSym = real Azimuth with its wrap point moved to +-pi",
@@ -394,8 +426,9 @@ def _run(ctx: Ctx, pool):
                          java_opts=jopts, **kw)
 
     f_obs = tl("ObsGroup", _cfg("ObsGroup", ctx), "obs")
-    f_sim = tl("ObsGroup", _cfg("ObsGroup_sim", ctx), "obs_sim", workers=1, simulate=f"num={40 if q else 1000}", depth=10,
-               seed=ctx.seed + 1)
+    f_seq = tl("ObsGroup", _cfg("ObsGroup_seq", ctx), "obs_seq", coverage=not q)
+    f_sim = tl("ObsGroup", _cfg("ObsGroup_sim", ctx), "obs_sim", workers=1, simulate=f"num={30 if q else 800}",
+               depth=16 if q else 22, seed=ctx.seed + 1)
     f_res = tl("Angles", _cfg("Angles_res", ctx), "res", coverage=not q)
     f_mean = tl("Angles", _cfg("Angles_mean", ctx), "mean", coverage=not q)
     # thorough only: longer group words with action coverage, and the two spec mutants
@@ -407,24 +440,39 @@ def _run(ctx: Ctx, pool):
     # ---- filter level: hand the behaviours to the worker processes as soon as TLC is done
     obs = _spec_ok(f_obs.result(), "ObsGroup (replay configuration)")
     ctx.add_tlc(obs, "ObsGroup.tla exhaustive, one group action per behaviour incl. all 24 orders; every updated state replayed")
+    seq = _spec_ok(f_seq.result(), "ObsGroup (update sequences)")
+    ctx.add_tlc(seq, "ObsGroup.tla exhaustive, two successive updates of ONE filter instance with group actions / relayout between "
+                     "them (equal total dimension, different layouts, far range innovations); every updated state replayed")
     sim = _spec_ok(f_sim.result(), "ObsGroup (simulation)")
     ctx.add_tlc(sim, "ObsGroup.tla random behaviours with up to 4 group actions (simulation mode); updated states replayed")
     states = {}
-    for st in sorted(obs.tagged("OBS") + sim.tagged("OBS"), key=lambda x: json.dumps(x, sort_keys=True)):
-        states.setdefault(json.dumps([st["tuning"], st["stack"]], sort_keys=True), st)
+    for st in sorted(obs.tagged("OBS") + seq.tagged("OBS") + sim.tagged("OBS"), key=lambda x: json.dumps(x, sort_keys=True)):
+        states.setdefault(json.dumps([st["tuning"], st["hist"], st["stack"]], sort_keys=True), st)
     if not states:
         raise tlc.MachineryError("ObsGroup.tla emitted no state")
+    if not any(st["hist"] for st in states.values()):
+        raise tlc.MachineryError("ObsGroup.tla emitted no behaviour with two updates of one filter instance")
     groups: dict = {}
     for st in states.values():
         base = A.canonical(st["stack"])
         k = json.dumps([st["tuning"], base], sort_keys=True)
         g = groups.setdefault(k, (st["tuning"], base, []))
-        if st["stack"] != base:
-            g[2].append(st["stack"])
+        if st["hist"]:
+            g[2].append((st["stack"], st["hist"]))
+            if st["stack"] != base:
+                g[2].append((st["stack"], []))        # its fresh twin is also compared with the canonical stack
+        elif st["stack"] != base:
+            g[2].append((st["stack"], []))
     tasks = []
-    for tuning, base, stacks in groups.values():      # split big groups so the workers stay balanced
-        for i in range(0, max(1, len(stacks)), 24):
-            tasks.append((tuning, base, stacks[i:i + 24], i == 0))
+    for tuning, base, items in groups.values():      # split big groups so the workers stay balanced
+        seen_items, uniq = set(), []
+        for it in items:
+            k = json.dumps(it, sort_keys=True)
+            if k not in seen_items:
+                seen_items.add(k)
+                uniq.append(it)
+        for i in range(0, max(1, len(uniq)), 24):
+            tasks.append((tuning, base, uniq[i:i + 24], i == 0))
     async_res = pool.map_async(replay_group, tasks, chunksize=1)
     phase["obsgroup_tlc_done"] = round(time.time() - t0, 1)
 
@@ -455,6 +503,7 @@ def _run(ctx: Ctx, pool):
         spec = _spec_ok(f_spec.result(), "ObsGroup (two group actions)")
         ctx.add_tlc(spec, "ObsGroup.tla exhaustive with two group actions per behaviour (action property, invariants)")
         _coverage(ctx, spec, "obs")
+        _coverage(ctx, seq, "seq")
         _coverage(ctx, res, "res")
         _coverage(ctx, mean, "mean")
     killed = []
@@ -470,9 +519,11 @@ def _run(ctx: Ctx, pool):
     # ---- collect the filter results
     worst: dict = {}
     n_upd = 0
+    n_seq = 0
     tun = {}
     for t, out in zip(tasks, async_res.get(timeout=3000)):
         n_upd += out["n"]
+        n_seq += out["n_seq"]
         tun[t[0]] = {"centre_weight": out["w0"], "weight_condition": out["cond"]}
         for key, nontrivial in out["cases"]:
             ctx.case(key, nontrivial=nontrivial)
@@ -487,6 +538,7 @@ def _run(ctx: Ctx, pool):
     some = next(iter(states.values()))
     ctx.samples.append({"ukf_state": some})
     ctx.extra["ukf_updates"] = n_upd
+    ctx.extra["ukf_update_sequences_on_one_instance"] = n_seq
     ctx.extra["ukf_bases"] = len(groups)
     ctx.extra["ukf_tunings"] = tun
     ctx.extra["ukf_worst_scaled_error"] = {k: float(f"{v:.3e}") for k, v in sorted(worst.items())}
@@ -499,7 +551,7 @@ def replay(ctx: Ctx, rp: dict):
     sched.install()
     r = rp["replay"]
     if "stack" in r:
-        out = replay_group((r["tuning"], A.canonical(r["stack"]), [r["stack"]], True))
+        out = replay_group((r["tuning"], A.canonical(r["stack"]), [(r["stack"], r.get("hist") or [])], True))
         for key, nontrivial in out["cases"]:
             ctx.case(key, nontrivial=True)
         for sig, what, rpl in out["violations"]:
